@@ -1100,6 +1100,9 @@ func main() {
 		if !apiCompatible(spec) {
 			continue
 		}
+		if i%2 == 0 && !hasConnection(spec) {
+			continue // every other mounted schema has apifu connections (with their own edge fields)
+		}
 		if _, err := buildSchema(spec, &world{orig: expand(spec), F: map[string]bool{}}); err != nil {
 			continue
 		}
@@ -1129,6 +1132,17 @@ func main() {
 		}
 	}
 	run.Finish(h.model)
+}
+
+func hasConnection(s *Spec) bool {
+	for _, t := range s.Types {
+		for _, f := range t.Fields {
+			if f.Conn != nil {
+				return true
+			}
+		}
+	}
+	return false
 }
 
 func sortedKeys(m map[string]int) []string {
